@@ -1,5 +1,7 @@
 import NitroVerif.Lemmas.Peg
 import NitroVerif.Lemmas.Build
+import NitroVerif.Lemmas.SkipInv
+import NitroVerif.Lemmas.TypeBuild
 import NitroVerif.Model.Build
 import NitroVerif.Spec.Lex
 /-!
@@ -69,19 +71,108 @@ theorem driver_tables_agree (inp : List Char) :
 /-! ### terminals -/
 
 /-- a string terminal consumes exactly its own characters (base case of `pair_span`) -/
-theorem str_consumes_exactly (s rest r : List Char) (h : matchStr s rest = some r) : rest = s ++ r := by
-  induction s generalizing rest with
-  | nil => simp [matchStr] at h; simp [h]
-  | cons c s ih =>
-    cases rest with
-    | nil => simp [matchStr] at h
-    | cons d rest =>
-      simp only [matchStr] at h
-      split at h
-      · rename_i hcd
-        subst hcd
-        simp [ih rest h]
-      · cases h
+theorem str_consumes_exactly (s rest r : List Char) (h : matchStr s rest = some r) : rest = s ++ r :=
+  matchStr_eq h
+
+/-! ### spans -/
+
+/-- `pair_span`: for ANY grammar table, rule, atomicity, lookahead state and depth bound — a rule call that starts
+    at an offset inside the input and succeeds ends at a consistent cursor (`rest = input.drop pos`, `pos ≤ |input|`)
+    and the pairs it returns are well-formed spans (`SpanOk`): listed in input order without overlap, all inside
+    [start offset, end offset], each with `start ≤ end` and with its children — recursively — inside it.
+    Offsets are code points, so every span is on character boundaries by construction; the text of a pair is the
+    slice `input[start, end)` (`Pair::as_str` = `Peg.slice`). -/
+theorem pair_span (g : G) (fuel : Nat) (r : RuleId) (at_ : Atomicity) (la : Look) (tr : Tr) (input : List Char)
+    (off : Nat) (hoff : off ≤ input.length) (tr' : Tr) (c' : Cur) (ps : List Pair)
+    (h : callRule g fuel r at_ la tr ⟨off, input.drop off⟩ = (tr', .ok c' ps)) :
+    c'.pos ≤ input.length ∧ c'.rest = input.drop c'.pos ∧ SpanOk off c'.pos ps := by
+  obtain ⟨⟨h1, h2⟩, h3⟩ := (spanInv g input fuel).cr r at_ la tr ⟨off, input.drop off⟩ tr' c' ps ⟨hoff, rfl⟩ h
+  exact ⟨h1, h2, h3⟩
+
+/-- … in particular for the parser entry point: every pair of a parse result, at any depth, satisfies
+    `start ≤ end ≤ |input|`, and the top-level pairs are well-formed spans of the whole input -/
+theorem parse_pairs_in_bounds (g : G) (fuel : Nat) (r : RuleId) (input : List Char) (ps : List Pair)
+    (h : Peg.parse g fuel r input = .pairs ps) :
+    SpanOk 0 input.length ps ∧ ∀ p ∈ flatList ps, p.start ≤ p.stop ∧ p.stop ≤ input.length := by
+  unfold Peg.parse runTr at h
+  rcases hc : callRule g fuel r .nonAtomic .none {} ⟨0, input⟩ with ⟨tr, o⟩
+  rw [hc] at h
+  cases o with
+  | ok c' ps' =>
+    simp only [ParseResult.pairs.injEq] at h
+    subst h
+    obtain ⟨h1, _, h3⟩ := pair_span g fuel r .nonAtomic .none {} input 0 (Nat.zero_le _) tr c' ps' (by simpa using hc)
+    have hw := h3.widen h1
+    exact ⟨hw, fun p hp => (spanOk_flat_bounds hw p hp).2⟩
+  | fail => simp at h
+  | oof => simp at h
+
+example : SpanOk 0 5 [.mk 48 0 5 [.mk 49 0 5 [.mk 51 0 5 [.mk 52 0 5 [.mk 53 2 3 []]]]]] :=
+  .cons (Nat.le_refl _) (.cons (Nat.le_refl _) (.cons (Nat.le_refl _) (.cons (Nat.le_refl _)
+    (.cons (by decide) (.nil (by decide)) (.nil (by decide))) (.nil (Nat.le_refl _))) (.nil (Nat.le_refl _)))
+    (.nil (Nat.le_refl _))) (.nil (Nat.le_refl _))
+
+/-! ### implicit skipping -/
+
+/-- `skip_exact`: in a non-atomic context the implicit skip between sequence items / repetitions consumes exactly a
+    maximal run of trivia: the cursor moves from `c` to `c'` by matches of WHITESPACE and COMMENT only
+    (`TriviaRun`), and at `c'` neither WHITESPACE nor COMMENT matches (`FailsAt`) — for any grammar table that
+    defines both rules, any lookahead state and depth bound. -/
+theorem skip_exact (g : G) (w m : RuleId) (hw : g.ws = some w) (hm : g.cm = some m) (fuel : Nat) (la : Look)
+    (tr : Tr) (c : Cur) (tr' : Tr) (c' : Cur) (ps : List Pair)
+    (h : doSkip g fuel true .nonAtomic la tr c = (tr', .ok c' ps)) :
+    TriviaRun g w m .nonAtomic la c c' ∧ FailsAt g (.call w) .nonAtomic la c' ∧ FailsAt g (.call m) .nonAtomic la c' := by
+  cases fuel with
+  | zero => simp [doSkip_zero] at h
+  | succ fuel =>
+    simp only [doSkip, and_self, if_true, G.skipExpr, hw, hm] at h
+    exact skipExpr_exact g h
+
+/-- … and in an atomic or compound-atomic context nothing is skipped -/
+theorem skip_atomic_noop (g : G) (fuel : Nat) (sk : Bool) (at_ : Atomicity) (hat : at_ ≠ .nonAtomic) (la : Look)
+    (tr : Tr) (c : Cur) : doSkip g (fuel + 1) sk at_ la tr c = (tr, .ok c []) := by
+  simp [doSkip, hat]
+
+example : gList.ws = some R.WHITESPACE ∧ gList.cm = some R.COMMENT := ⟨rfl, rfl⟩
+
+/-! ### render ∘ parse for the `Type` sub-language -/
+
+open NitroVerif.TypeParse in
+/-- `render_parse_type`: for EVERY type the grammar can express (`WF`: valid names, no `!!`; any nesting depth, any
+    names) — running the GENERATED grammar's `Type` rule (generic interpreter, the rule bodies read from
+    `Gen.grammar` by `rfl`) on the canonical rendering of `t` and then the builder `build_type` gives `t` back, with
+    every position equal to the line/column of the corresponding token; for every parser depth bound ≥ `Kty t` and
+    builder depth bound ≥ `Dt t + 1`, both linear in the length of the text. -/
+theorem render_parse_type (t : Gql.GType) (hwf : WF t) (fuel bfuel : Nat) (hf : Kty t ≤ fuel) (hb : Dt t + 1 ≤ bfuel) :
+    ∃ pair, Peg.parse gList fuel R.«Type» (renderT t) = .pairs [pair] ∧
+      buildType (Ctx.spec (renderT t)) bfuel pair = .ok (withPos (renderT t) 0 t) := by
+  refine ⟨typePair t 0, parse_type_pairs t hwf fuel hf, ?_⟩
+  obtain ⟨k, rfl⟩ : ∃ k, bfuel = Dt t + k + 1 := ⟨bfuel - (Dt t + 1), by omega⟩
+  exact buildType_typePair (renderT t) t hwf 0 [] k (by simp)
+
+open NitroVerif.TypeParse in
+/-- … in the terms of the shared vocabulary: with the depth bounds the parser model actually uses
+    (`defaultFuel`, `4·|input| + 64`), the text is `GType.render t` and the result equals `t` up to positions. -/
+theorem render_parse_type_default (t : Gql.GType) (hwf : WF t) :
+    let inp := t.render.toList
+    ∃ pair t', Peg.parse gList (defaultFuel inp) R.«Type» inp = .pairs [pair] ∧
+      buildType (Ctx.spec inp) (4 * inp.length + 64) pair = .ok t' ∧ t'.erasePos = t.erasePos := by
+  simp only [render_toList]
+  have h1 := kin_linear t
+  have h2 := dt_linear t
+  obtain ⟨pair, hp, hb⟩ := render_parse_type t hwf (defaultFuel (renderT t)) (4 * (renderT t).length + 64)
+    (by simp only [Kty, defaultFuel]; omega) (by omega)
+  exact ⟨pair, _, hp, hb, withPos_erase _ t 0⟩
+
+open NitroVerif.TypeParse in
+example : WF (.nonNull (.list (.nonNull (.named "Int" {})) {})) := by
+  refine ⟨⟨?_, rfl⟩, rfl⟩
+  show validName "Int".toList
+  have : "Int".toList = ['I', 'n', 't'] := by decide
+  rw [this]
+  refine ⟨by decide, fun x hx => ?_⟩
+  simp only [List.mem_cons, List.not_mem_nil, or_false] at hx
+  rcases hx with rfl | rfl <;> decide
 
 /-! ### strings -/
 
@@ -171,19 +262,10 @@ example :
 /-
 OPEN — carried by K/O only (stated, not proved):
 
-theorem pair_span :
-    callRule g fuel r at_ la tr ⟨off, input.drop off⟩ = (tr', .ok c' ps) →
-      c'.rest = input.drop c'.pos ∧ off ≤ c'.pos ∧ c'.pos ≤ input.length ∧
-      ∀ p ∈ allPairs ps, off ≤ p.start ∧ p.start ≤ p.stop ∧ p.stop ≤ c'.pos   -- and children inside the parent
-  -- the cursor invariant of the interpreter; the induction over the four mutually recursive functions is not
-  -- done (base case: `str_consumes_exactly`). K compares the text and the position of every node with the real
-  -- parser on every text, O compares them with the renderer's recorded token starts.
-
-theorem skip_exact : the implicit skip consumes exactly the maximal run of trivia
 theorem string_decode : stringValueChars (parse ("\"" ++ specEscape s ++ "\"")) = s      -- composed over a whole string
   -- the three arms are proved above (`string_decode_escape`, `string_decode_code`, `string_decode_plain`); the
   -- composition needs the PEG run on an arbitrary string (O: hostile strings of every generated document).
-theorem render_parse_type, render_parse_value, and the full statement
+theorem render_parse_value (the `Value` sub-language; `Type` is proved above), and the full statement
 theorem parse_render : ∀ A τ, parseModel (render A τ) = A
   -- a verified-parser result beyond this budget. Established by K (model = code, 0 disagreements on every
   -- generated text, canonical and noisy) + O (code = A, structure and positions) in harness/src/bin/c07.rs.
